@@ -378,7 +378,7 @@ pub fn run(args: &Args) {
     // large sizes: the whole output cannot be compared with an O(n^2) evaluation, but every output
     // entry can be checked on its own by Horner's rule — all entries of a fixed spread of 96 rows
     {
-        let top = if thorough { 17 } else { 15 };
+        let top = if thorough { 18 } else { 16 };
         let jobs: Vec<(usize, u32)> = (0..4).flat_map(|k| (max_log + 1..=top).map(move |l| (k, l))).collect();
         let outs = mck::par_map(jobs.len(), |j| {
             let (k, l) = jobs[j];
